@@ -737,10 +737,24 @@ pub fn config_lattice(fmt: &str, rng: &mut Rng, n_inputs: usize, out: &mut Vec<S
             intr_script.push(if rng.chance(1, 2) { ReadEv::Intr } else { ReadEv::Data(rng.range(1, 5)) });
         }
         let (rs, rc) = rand_script(rng, true);
+        // third configuration: DoubleUntil, or DoubleUntilLimited whose limit is a size its own growth chain reaches
+        // exactly (the documentation permits sizes up to and including the limit)
+        let third: (usize, PolDesc, usize, Vec<ReadEv>) = if rng.chance(1, 2) {
+            (rng.range(3, len + 2), PolDesc::DoubleUntil(rng.range(1, 30)), 0, vec![])
+        } else {
+            let cap0 = rng.range(3, 9);
+            let t = rng.range(1, 12);
+            let target = rng.range(len / 2 + 1, len + 4);
+            let mut c = cap0;
+            while c < target {
+                c = if c < t { c * 2 } else { c + t };
+            }
+            (cap0, PolDesc::Limited(t, c + *rng.pick(&[0usize, 0, 0, 1])), 0, vec![])
+        };
         let cfgs: Vec<(usize, PolDesc, usize, Vec<ReadEv>)> = vec![
             (3, PolDesc::Std, 1, vec![]),
             (rng.range(3, 9), PolDesc::Add(1), 2, intr_script),
-            (rng.range(3, len + 2), PolDesc::DoubleUntil(rng.range(1, 30)), 0, vec![]),
+            third,
             (64, PolDesc::Std, 0, vec![]),
             (len + 1 + rng.below(4096), PolDesc::Std, rc, rs),
             (rng.range(3, len + 2), PolDesc::Table((0..3).map(|_| rng.range(1, 7)).collect()), *rng.pick(&[0usize, 3, 7]), vec![]),
